@@ -38,6 +38,20 @@ def run(tier, seed):
         for _ in range(120 if thorough else 30):
             d0 = clirun.gen_wf_dir(rng, rng.choice([0, 1, 2, 5, 8, 12, 30 if thorough else 10]))
             for n, p in d0:
+                if rng.random() < 0.2:
+                    # a large section AHEAD of the primary SRC, or a primary SRC with many long callouts: the summary lies beyond the first kilobytes
+                    if rng.random() < 0.5:
+                        p['sections'].insert(0, {'kind': 'ud', 'hdr': dict(apel.gen_hdr(rng), comp=0x7777, sub=9), 'payload': bytes(rng.randrange(256) for _ in range(rng.choice([1100, 4000, 20000])))})
+                    else:
+                        for sec in p['sections']:
+                            if sec['kind'] == 'src' and sec['primary']:
+                                big = []
+                                for _ in range(10):
+                                    c = apel.gen_callout(rng)
+                                    c['loc'] = (b'U78DA.ND1.LONG-LOCATION-CODE-' + b'X' * 80)[:80]
+                                    c['pce'], c['mru'] = None, None
+                                    big.append(c)
+                                sec['src']['callouts'] = {'subId': 0xC0, 'subFlags': 0, 'callouts': big}
                 if rng.random() < 0.25:
                     p['ph']['creator'] = ord('x')
                     for comp in rng.sample([0x1111, 0x2222, 0x3333, 0x8888, 0x5A5A, 0x6B6B], rng.randrange(1, 4)):
